@@ -37,6 +37,8 @@ var times = []instant{
 	{951782400, 0}, {4107542399, 1}, // leap day 2000, end of 2099 + 1ns
 }
 
+var zones = []int{0, 3600, -18000, 19800, 0, 49500, -34200}
+
 var sizes = []int64{0, 1, 7, 4096, 1 << 31, 1<<53 + 1, 1<<62 - 1}
 
 // endpoint path as the client will hold it (url.Parse(...).Path, "" -> "/")
@@ -220,7 +222,7 @@ func generate(out chan<- caseIn) {
 				// a file with this name, every tag / type / time / size once
 				k := 0
 				for k < len(tags) || k < len(mimes) || k < len(times) || k < len(sizes) {
-					fi := webdav.FileInfo{Path: tgt, Size: sizes[k%len(sizes)], ModTime: mkTime(times[k%len(times)].sec, times[k%len(times)].ns),
+					fi := webdav.FileInfo{Path: tgt, Size: sizes[k%len(sizes)], ModTime: inZone(mkTime(times[k%len(times)].sec, times[k%len(times)].ns), zones[(k+ni)%len(zones)]),
 						MIMEType: mimes[k%len(mimes)], ETag: tags[k%len(tags)]}
 					if thorough || k <= 12 || (k+ni)%5 == 0 {
 						emit("i", ep, memBackend(false, hx.L("stat", hx.S(tgt), hx.L("ok", fiL(fi)))), opStat(form))
@@ -396,7 +398,7 @@ func randInfo(rng *hx.Rand, p string) webdav.FileInfo {
 	if rng.Chance(1, 2) {
 		tm = instant{int64(rng.U64()%300000000000) - 30000000000, int64(rng.Intn(1000000000))}
 	}
-	fi := webdav.FileInfo{Path: p, Size: sizes[rng.Intn(len(sizes))], ModTime: mkTime(tm.sec, tm.ns), IsDir: rng.Chance(1, 4)}
+	fi := webdav.FileInfo{Path: p, Size: sizes[rng.Intn(len(sizes))], ModTime: inZone(mkTime(tm.sec, tm.ns), zones[rng.Intn(len(zones))]), IsDir: rng.Chance(1, 4)}
 	switch rng.Intn(3) {
 	case 0:
 		fi.MIMEType = rng.Pick(hostileMimes)
